@@ -246,8 +246,10 @@ Lemma gen_cols_shape : forall d o t, gen d o = Built t -> o_notraits o = false -
 Proof.
   intros d o t H Hnt. unfold gen in H.
   destruct (sort_values (d_consts d)) as [|first rest] eqn:Es; [discriminate|].
+  destruct (existsb (fun v => reserved_name o (g_name v)) (first :: rest)); [discriminate|].
   destruct (o_ci o && negb (str_nodupb (map (fun v => to_lower (g_name v)) (first :: rest)))); [discriminate|].
   rewrite Hnt in H.
+  destruct (existsb (fun v => existsb (fun c => reserved_cell_var (cl_var c)) (g_cells v)) (first :: rest)); [discriminate|].
   destruct (first_columns d o first (g_cells first)) as [cols0| | |] eqn:Ef; try discriminate.
   exists first, rest, cols0. split; [reflexivity|]. split; [exact Ef|].
   destruct (Nat.eqb (length cols0) 0) eqn:E0.
@@ -592,3 +594,237 @@ Print Assumptions accessor_names.
 Print Assumptions built_traits_wf.
 Print Assumptions accessor_correct.
 Print Assumptions parse_trait_correct.
+
+(* ================================================================== definition-level reading of the
+   exception clauses ("… that is not the value of a trait declared parsable", "unambiguous") *)
+Lemma nth_combine : forall {A B} (l1 : list A) (l2 : list B) j a b,
+  nth_error l1 j = Some a -> nth_error l2 j = Some b -> In (a, b) (combine l1 l2).
+Proof.
+  intros A B l1. induction l1 as [|x r IH]; intros l2 j a b H1 H2; destruct j; simpl in *; try discriminate.
+  - destruct l2; simpl in *; [discriminate|]. inversion H1; inversion H2; subst. left; reflexivity.
+  - destruct l2; simpl in *; [discriminate|]. right. eapply IH; eauto.
+Qed.
+
+Lemma dyn_eqb_refl : forall x, dyn_eqb x x = true.
+Proof.
+  intros [ty p]. unfold dyn_eqb. simpl. rewrite String.eqb_refl. simpl.
+  destruct p as [s|z|b]; simpl; [apply String.eqb_refl|apply Z.eqb_refl|destruct b; reflexivity].
+Qed.
+
+(* every constant the generator lists in the Parse switch as a trait constant of value g is, in the
+   DEFINITION, the value of a cell of a column declared parsable on a line of that value *)
+Lemma trait_const_owner_sound : forall d o t g x, wf_defn d -> gen d o = Built t -> o_notraits o = false ->
+  In g (sort_values (d_consts d)) -> In x (trait_consts t g) ->
+  exists k cl, In k (d_consts d) /\ c_val k = g_z g /\ In cl (parsable_cells d o k) /\ cl_val cl = x.
+Proof.
+  intros d o t g x Hwf Hgen Hnt Hg Hx.
+  unfold trait_consts in Hx. apply dyn_dedup_from_In in Hx. destruct Hx as [Hx _].
+  apply in_flat_map in Hx. destruct Hx as [c [Hc Hx]].
+  destruct (col_parsable c) eqn:Hp; [|contradiction].
+  unfold owned_cells in Hx. apply in_map_iff in Hx. destruct Hx as [r [Er Hr]].
+  apply filter_In in Hr. destruct Hr as [Hr Hown].
+  destruct (tcols_col_at d o t Hgen Hnt c Hc) as [j Hat].
+  destruct (col_at_rows_sound d o Hwf j c r Hat Hr) as [HL [Hnth _]].
+  pose proof (col_at_name d o Hwf j c Hat) as Hname.
+  pose proof (col_at_parsable d o j c Hat) as Hpar. rewrite Hp in Hpar.
+  destruct (L_inv d _ HL) as [k [Hk Ek]].
+  apply String.eqb_eq in Hown.
+  assert (Eg : r_owner r = g).
+  { destruct (L_inv d _ Hg) as [k' [Hk' Ek']]. rewrite Ek, Ek' in Hown. cbn [to_gvalue g_name] in Hown.
+    destruct Hwf as [_ [_ Hnd]].
+    assert (k = k') by (eapply (NoDup_map_inj_in c_name); eauto). subst k'. congruence. }
+  exists k, (r_cell r). split; [assumption|]. split; [rewrite <- Eg, Ek; reflexivity|]. split; [|assumption].
+  unfold parsable_cells. rewrite Hnt. apply in_map_iff. exists (col_name c, r_cell r). split; [reflexivity|].
+  apply filter_In. split.
+  - unfold named_cells. eapply nth_combine; [exact Hname|]. rewrite Ek in Hnth. exact Hnth.
+  - simpl. symmetry. exact Hpar.
+Qed.
+
+Lemma notraits_no_cols : forall d o t, gen d o = Built t -> o_notraits o = true -> t_cols t = [].
+Proof.
+  intros d o t H Hnt. unfold gen in H.
+  destruct (sort_values (d_consts d)) as [|first rest]; [discriminate|].
+  destruct (existsb (fun v => reserved_name o (g_name v)) (first :: rest)); [discriminate|].
+  destruct (o_ci o && negb (str_nodupb (map (fun v => to_lower (g_name v)) (first :: rest)))); [discriminate|].
+  rewrite Hnt in H. apply mk_tables_built in H. destruct H as [_ ->]. reflexivity.
+Qed.
+
+(* soundness of the exception clause of the rejection theorems *)
+Lemma trait_const_sound : forall d o t x, wf_defn d -> gen d o = Built t ->
+  is_trait_const d t x -> is_parsable_trait_value d o x = true.
+Proof.
+  intros d o t x Hwf Hgen [g [Hg Hx]].
+  destruct (o_notraits o) eqn:Hnt.
+  - exfalso. unfold trait_consts in Hx. rewrite (notraits_no_cols d o t Hgen Hnt) in Hx. simpl in Hx. exact Hx.
+  - destruct (trait_const_owner_sound d o t g x Hwf Hgen Hnt Hg Hx) as [k [cl [Hk [_ [Hcl <-]]]]].
+    unfold is_parsable_trait_value. apply existsb_exists. exists k. split; [assumption|].
+    apply existsb_exists. exists cl. split; [assumption|apply dyn_eqb_refl].
+Qed.
+
+(* what a successful Parse<T> means, at the level of the definition: the input names a constant of
+   that value (case-insensitively under -caseInsensitive), or it is a parsable trait cell on a line of
+   that value *)
+Lemma parse_some_inv : forall d o t x w, wf_defn d -> gen d o = Built t -> sem_parse t x = Some w ->
+  (exists c, In c (d_consts d) /\ c_val c = w /\
+             (x = DStr (c_name c) \/ (o_ci o = true /\ exists s, x = DStr s /\ to_lower s = to_lower (c_name c))))
+  \/ (exists k cl, In k (d_consts d) /\ c_val k = w /\ In cl (parsable_cells d o k) /\ cl_val cl = x).
+Proof.
+  intros d o t x w Hwf Hgen H. unfold sem_parse in H.
+  rewrite (B_all d o t Hgen), (B_opts d o t Hgen) in H.
+  destruct (find _ (sort_values (d_consts d))) as [g|] eqn:F.
+  - inversion H; subst w. apply find_some in F. destruct F as [Hg Hex].
+    apply existsb_dyn_In in Hex. rewrite case_consts_split in Hex. destruct Hex as [E|Hx].
+    + left. destruct (L_inv d g Hg) as [c [Hc ->]]. exists c. split; [assumption|]. split; [reflexivity|]. left. symmetry. exact E.
+    + destruct (o_notraits o) eqn:Hnt.
+      * exfalso. unfold trait_consts in Hx. rewrite (notraits_no_cols d o t Hgen Hnt) in Hx. exact Hx.
+      * right. destruct (trait_const_owner_sound d o t g x Hwf Hgen Hnt Hg Hx) as [k [cl [Hk [Hv [Hcl E]]]]].
+        exists k, cl. auto.
+  - destruct (o_ci o) eqn:Hci; [|discriminate].
+    destruct x as [ty p]. cbn [dval dty] in H. destruct p as [s| |]; try discriminate.
+    destruct (String.eqb ty "string") eqn:Ety; [|discriminate]. apply String.eqb_eq in Ety. subst ty.
+    destruct (find (fun g => String.eqb (to_lower (g_name g)) (to_lower s)) (sort_values (d_consts d))) as [g|] eqn:F2; [|discriminate]. inversion H; subst w.
+    apply find_some in F2. destruct F2 as [Hg E]. apply String.eqb_eq in E.
+    left. destruct (L_inv d g Hg) as [c [Hc ->]]. exists c. split; [assumption|]. split; [reflexivity|].
+    right. split; [reflexivity|]. exists s. split; [reflexivity|]. symmetry. exact E.
+Qed.
+
+(* a definition-level sufficient condition for `unambiguous`: no reading the decoder tries names a
+   constant of another value or is a parsable trait cell on a line of another value (executable) *)
+Definition names_const (o : opts) (c : const) (y : dyn) : bool :=
+  dyn_eqb y (DStr (c_name c))
+  || (o_ci o && match dval y with
+                | PStr s => String.eqb (dty y) "string" && String.eqb (to_lower s) (to_lower (c_name c))
+                | _ => false
+                end).
+Definition def_unambiguous (d : defn) (o : opts) (l : list dyn) (v : Z) : bool :=
+  forallb (fun y =>
+    forallb (fun c => Z.eqb (c_val c) v
+                      || negb (names_const o c y || existsb (fun cl => dyn_eqb (cl_val cl) y) (parsable_cells d o c)))
+            (d_consts d)) l.
+
+Lemma def_unambiguous_sound : forall d o t l v, wf_defn d -> gen d o = Built t ->
+  def_unambiguous d o l v = true -> unambiguous t l v.
+Proof.
+  intros d o t l v Hwf Hgen H y w Hy Hp. unfold def_unambiguous in H. rewrite forallb_forall in H.
+  specialize (H y Hy). rewrite forallb_forall in H.
+  destruct (parse_some_inv d o t y w Hwf Hgen Hp) as [[c [Hc [Hv Hn]]]|[k [cl [Hk [Hv [Hcl E]]]]]].
+  - specialize (H c Hc). apply orb_true_iff in H. destruct H as [H|H]; [apply Z.eqb_eq in H; congruence|].
+    exfalso. apply negb_true_iff in H. apply orb_false_iff in H. destruct H as [H _].
+    unfold names_const in H. apply orb_false_iff in H. destruct H as [H1 H2].
+    destruct Hn as [->|[Hci [s [-> Hs]]]].
+    + rewrite dyn_eqb_refl in H1. discriminate.
+    + rewrite Hci in H2. cbn [dval dty DStr andb] in H2. rewrite String.eqb_refl, Hs, String.eqb_refl in H2. discriminate.
+  - specialize (H k Hk). apply orb_true_iff in H. destruct H as [H|H]; [apply Z.eqb_eq in H; congruence|].
+    exfalso. apply negb_true_iff in H. apply orb_false_iff in H. destruct H as [_ H].
+    assert (T : existsb (fun cl0 => dyn_eqb (cl_val cl0) y) (parsable_cells d o k) = true).
+    { apply existsb_exists. exists cl. split; [assumption|]. rewrite E. apply dyn_eqb_refl. }
+    congruence.
+Qed.
+
+(* the generator accepts every well-formed definition without traits *)
+Lemma existsb_perm : forall {A} (f : A -> bool) l1 l2, Permutation.Permutation l1 l2 -> existsb f l1 = existsb f l2.
+Proof.
+  intros A f l1 l2 H. induction H; simpl; try congruence.
+  - destruct (f x), (f y); reflexivity.
+Qed.
+Lemma gen_total_notraits : forall d o, wf_defn d -> d_consts d <> [] -> o_notraits o = true -> o_ci o = false ->
+  existsb (fun c => reserved_name o (c_name c)) (d_consts d) = false ->
+  exists t, gen d o = Built t.
+Proof.
+  intros d o Hwf Hne Hnt Hci Hres. unfold gen.
+  assert (Hr : existsb (fun v => reserved_name o (g_name v)) (sort_values (d_consts d)) = false).
+  { rewrite (existsb_perm _ _ _ (sort_values_perm (d_consts d))). unfold gvals.
+    rewrite <- Hres. clear. induction (d_consts d) as [|c r IH]; simpl; [reflexivity|]. rewrite IH. reflexivity. }
+  revert Hr.
+  destruct (sort_values (d_consts d)) as [|f r] eqn:E.
+  - intros _. exfalso. apply Hne. pose proof (sort_values_length (d_consts d)) as HL. rewrite E in HL.
+    destruct (d_consts d); [reflexivity|discriminate].
+  - intros Hr. rewrite Hr, Hci, Hnt. simpl. unfold mk_tables.
+    assert (Hb : build_ok o (f :: r) [] = true).
+    { unfold build_ok. rewrite Hci. simpl orb. cbn [forallb map str_nodupb andb].
+      rewrite andb_true_r. rewrite andb_true_r.
+      destruct Hwf as [_ [_ Hnd]].
+      assert (HN : NoDup (map g_name (f :: r))).
+      { rewrite <- E. eapply Permutation.Permutation_NoDup; [|exact Hnd].
+        apply Permutation.Permutation_sym.
+        eapply Permutation.perm_trans; [apply Permutation.Permutation_map; apply sort_values_perm|].
+        unfold gvals. rewrite map_map. apply Permutation.Permutation_refl. }
+      clear E. revert HN. generalize (f :: r). intros l HN.
+      assert (forall l, flat_map (case_consts []) l = map (fun g => DStr (g_name g)) l) as Hfm.
+      { induction l0; simpl; [reflexivity|]. rewrite IHl0. reflexivity. }
+      rewrite Hfm. induction l as [|a l IH]; [reflexivity|].
+      simpl. inversion HN; subst. rewrite IH by assumption. rewrite andb_true_r.
+      apply negb_true_iff. destruct (existsb (dyn_eqb _) _) eqn:Ex; [|reflexivity].
+      exfalso. apply existsb_exists in Ex. destruct Ex as [y [Hy Hey]].
+      apply in_map_iff in Hy. destruct Hy as [g [<- Hgin]].
+      unfold dyn_eqb, DStr in Hey. simpl in Hey. apply String.eqb_eq in Hey.
+      apply H1. rewrite Hey. apply in_map. assumption. }
+    rewrite Hb. eexists; reflexivity.
+Qed.
+
+(* the rejection clauses with the exception read off the definition *)
+Lemma parse_reject_def : forall d o t, wf_defn d -> gen d o = Built t -> forall s,
+  (forall c, In c (d_consts d) -> c_name c <> s) ->
+  (o_ci o = true -> forall c, In c (d_consts d) -> to_lower (c_name c) <> to_lower s) ->
+  is_parsable_trait_value d o (DStr s) = false -> sem_parse_string t s = None.
+Proof.
+  intros d o t Hwf Hg s Hn Hl Hp. apply (parse_reject d o t Hg s Hn Hl).
+  intro Ht. rewrite (trait_const_sound d o t _ Hwf Hg Ht) in Hp. discriminate.
+Qed.
+Lemma rejectable_def : forall d o t x, wf_defn d -> gen d o = Built t ->
+  ~ names_constant d o x -> is_parsable_trait_value d o x = false -> rejectable d o t x.
+Proof.
+  intros d o t x Hwf Hg Hn Hp. split; [exact Hn|].
+  intro Ht. rewrite (trait_const_sound d o t _ Hwf Hg Ht) in Hp. discriminate.
+Qed.
+
+(* non-vacuity of the decoding theorems: a parsable int64 trait 12 / 7 and a parsable named string trait
+   "1.1" / "v2": the JSON number 12, the YAML scalar 1.1 decode to the owner, the documents are
+   unambiguous by the definition-level criterion *)
+Definition ex_cell (var ty : string) (p : payload) (e : string) : cell :=
+  {| cl_var := var; cl_expr := e; cl_val := {| dty := ty; dval := p |} |}.
+Definition ex_defn : defn :=
+  {| d_ty := {| ty_name := "E0"; ty_signed := false; ty_bits := 8 |};
+     d_consts := [ {| c_name := "Old"; c_val := 3; c_dep := false;
+                      c_cells := [ex_cell "_Code" "int64" (PInt 12) "int64(12)"; ex_cell "_Proto" "pkg.Str" (PStr "1.1") "Str(""1.1"")"] |};
+                   {| c_name := "New"; c_val := 9; c_dep := false;
+                      c_cells := [ex_cell "_" "int64" (PInt 7) "int64(7)"; ex_cell "_" "pkg.Str" (PStr "v2") "Str(""v2"")"] |} ];
+     d_types := [("int64", {| ti_bkind := BInt64; ti_json_own := false; ti_yaml_own := false; ti_text_own := false |});
+                 ("pkg.Str", {| ti_bkind := BString; ti_json_own := false; ti_yaml_own := false; ti_text_own := false |})] |}.
+Definition ex_opts : opts :=
+  {| o_json := true; o_yaml := true; o_text := true; o_ci := true; o_notraits := false; o_parsable := ["Code"; "Proto"] |}.
+Definition ex_json12 : jview := {| jv_null := false; jv_string := None; jv_u64 := Some 12; jv_i64 := Some 12; jv_native := [] |}.
+Definition ex_yaml11 : yview := {| yv_scalar := true; yv_value := "1.1"; yv_u64 := None; yv_i64 := None; yv_native := [] |}.
+Lemma ex_decodes :
+  exists t, gen ex_defn ex_opts = Built t
+    /\ def_unambiguous ex_defn ex_opts (json_attempts t ex_json12) 3 = true
+    /\ decode_json t ex_json12 = Some 3
+    /\ def_unambiguous ex_defn ex_opts (yaml_attempts t ex_yaml11) 3 = true
+    /\ decode_yaml t ex_yaml11 = Some 3
+    /\ decode_text t {| tv_text := "v2"; tv_native := [] |} = Some 9.
+Proof. eexists. split; [vm_compute; reflexivity|]. vm_compute. repeat split. Qed.
+
+(* non-vacuity of the rejection theorems: for P0/P1/P2 with the parsable integer trait Code = 0/7/9 every
+   faithful reading of the YAML scalar `garbage` is rejectable (it names no constant and is no cell of a
+   parsable column of the definition), so all well-formed decoders reject it *)
+Lemma garbage_rejectable : forall t, gen yw_defn yw_opts = Built t ->
+  forall x, reading (Some "garbage") None None [] t x -> rejectable yw_defn yw_opts t x.
+Proof.
+  intros t Hg x Hr.
+  assert (Hwf : wf_defn yw_defn).
+  { split; [unfold ty_ok; simpl; split; discriminate|]. split.
+    - repeat constructor.
+    - repeat constructor; simpl; intuition discriminate. }
+  inversion Hr as [s Hs Hv|u c Hu|i c Hi|c p _ _ Hl]; try discriminate.
+  inversion Hs; subst s. destruct x as [ty p]. simpl in Hv. subst p.
+  apply (rejectable_def yw_defn yw_opts t _ Hwf Hg).
+  - intros [c [Hc [E|[Hci _]]]]; [|discriminate Hci].
+    simpl in Hc. destruct Hc as [<-|[<-|[<-|[]]]]; inversion E.
+  - unfold is_parsable_trait_value. simpl. unfold dyn_eqb. simpl. rewrite !andb_false_r. reflexivity.
+Qed.
+Lemma garbage_rejected : forall k, skels_ok k = true -> forall t, gen yw_defn yw_opts = Built t ->
+  decode_yaml_sk k t yw_garbage = None.
+Proof.
+  intros k Hk t Hg. apply (reject_yaml_sk k Hk yw_defn yw_opts t yw_garbage Hg).
+  intros x Hx. apply (garbage_rejectable t Hg x Hx).
+Qed.
